@@ -55,7 +55,9 @@ class C08(ParamsProp):
     def corpus(self):
         return [dict(c) for c in CLAUSES] + super().corpus()
 
-    def cases(self, tier, seed):
+    families = {"deep_ref_layers": 40}
+
+    def base_cases(self, tier, seed):
         N = 1200 if tier == "quick" else 30000
         for i in range(N):
             r = Rng(seed, "C08", i)
